@@ -583,9 +583,14 @@ impl SvgElement {
             self.attrs.insert(&key, &replace);
         }
         // Classes are handled separately to other attributes
-        for class in &self.classes.clone() {
-            self.classes.replace(class, eval_attr(class, ctx)?);
+        // (built anew in one pass: replacing the entries one by one scanned the list each time)
+        let mut evaluated = ClassList::new();
+        for class in self.classes.iter() {
+            for class in eval_attr(class, ctx)?.split_whitespace() {
+                evaluated.insert(class);
+            }
         }
+        self.classes = evaluated;
 
         Ok(())
     }
